@@ -238,6 +238,13 @@ func genECIES(r *hx.Rng, suite string) string {
 	np := len(p.priv.OutputPrefix())
 	nh := encodingSize(curve, format)
 	otherHeader := func() []byte {
+		if format != "c" && r.Chance(35) { // -P: same ECDH x coordinate, other KEM bytes
+			h := tc[np : np+nh]
+			if format == "l" {
+				return negY(curve, append([]byte{4}, h...))[1:]
+			}
+			return negY(curve, h)
+		}
 		// the encoding of another valid point: taken from another Tink encryption
 		var c2 []byte
 		hx.WithTape(&hx.Tape{Bulk: r.Bytes(256)}, func() { c2, _ = p.enc.Encrypt(nil, nil) })
